@@ -151,7 +151,8 @@ def run(ctx):
     ctx.count("C06-entrypoints", len(others), others[:2000], bad=nbad, sample=others[1][:120])
     # 3. memory: allocation must follow the input size
     mem = ["memtrav " + iongen.hx(b) for b in bins[:120] + [list(t) for t in texts]]
-    gm = run_go(mem, per_case_timeout=30, parallel=False)
+    # one process per case: heap growth (HeapSys) of a fresh process is the peak the case needed
+    gm = [run_go([m], per_case_timeout=60, parallel=False)[0] for m in mem]
     worst = 0
     for ln, g in zip(mem, gm):
         why = bad_outcome(ln, g)
@@ -161,8 +162,8 @@ def run(ctx):
         elif g.startswith("ok"):
             a = int(g.split(" ")[1])
             worst = max(worst, a / (n + 1))
-            if a > 600 * n + (8 << 20):
-                ctx.fail("property", "C06-memory", ln[:4000], "allocated %d bytes for %d bytes of input" % (a, n), classify_case(ln, None, g))
+            if a > 256 * n + (96 << 20):
+                ctx.fail("property", "C06-memory", ln[:4000], "heap grew by %d bytes for %d bytes of input" % (a, n), classify_case(ln, None, g))
     ctx.count("C06-memory", len(mem), [], worst_alloc_per_input_byte=round(worst, 1))
     # deep text nesting through Decoder (recursion per level)
     deep = ["decany 0 " + iongen.hx(b"[" * n) for n in (10000, 6000000)]
